@@ -296,7 +296,7 @@ def definitions(ctx, col):
             col.unresolved(R_, qual, d.loc(), what, str(e), stmt="form")
             return
         col.check(got.same(oracle), R_, qual, d.loc(rets[0]), what, norm_src(rets[0].value),
-                  f"`{norm_src(rets[0].value)}` = {got}, the definition is {oracle}", stmt="form")
+                  f"`{norm_src(rets[0].value)}` = {got}, the definition is {oracle}", stmt="form", definite=True)
     form(f"{A}.lmeasure.circle_area", ["r"], PI * S("r") ** 2, "circle area = pi r^2")
     form(f"{A}.lmeasure.sphere_surface_area", ["r"], C(4) * PI * S("r") ** 2, "sphere surface = 4 pi r^2")
     form(f"{A}.lmeasure.cylinder_volume", ["r", "h"], PI * S("r") ** 2 * S("h"), "cylinder volume = pi r^2 h")
@@ -318,7 +318,7 @@ def definitions(ctx, col):
             ok = None
     col.judge(ok is not None, bool(ok), R_, d.qualname, d.loc(last) if last is not None else d.loc(),
               "partition asymmetry = |n1 - n2| / (n1 + n2 - 2)", norm_src(last.value) if last is not None else "",
-              f"`{norm_src(last.value) if last is not None else ''}` is not |n1 - n2| / (n1 + n2 - 2)", stmt="pasym")
+              f"`{norm_src(last.value) if last is not None else ''}` is not |n1 - n2| / (n1 + n2 - 2)", stmt="pasym", definite=True)
     asg = {norm_src(s.targets[0]): norm_src(s.value) for s in d.node.body if isinstance(s, ast.Assign)}
     ok = asg.get("n1") == "len(children[0].subtree().get_tips())" and asg.get("n2") == "len(children[1].subtree().get_tips())" \
         and asg.get("children") == "n.children()"
@@ -358,67 +358,59 @@ def definitions(ctx, col):
     for qual, accepted, what in wiring:
         d = repo.get_def(qual)
         rets = [norm_src(r.value) for r in _ret(d)]
-        col.judge(len(rets) == 1, len(rets) == 1 and rets[0] in accepted, R_, qual, d.loc(), what, rets[0] if rets else "",
-                  f"returns `{rets}`; the definition is `{accepted[0]}`", stmt="wire")
-    d = repo.get_def(f"{LM}.contraction")
-    a = {norm_src(s.targets[0]): norm_src(s.value) for s in d.node.body if isinstance(s, ast.Assign)}
-    col.check(a.get("euclidean") in ("branch[0].distance(branch[-1])", "branch[-1].distance(branch[0])"), R_, d.qualname, d.loc(),
-              "contraction: Euclidean distance between the two ends of the branch", "", f"euclidean = `{a.get('euclidean')}`", stmt="contr")
-    # tortuosity as documented, zero-length guard
-    d = repo.get_def("swcgeom.core.path.Path.tortuosity")
-    src = norm_src(d.node)
-    ok = "if (length := self.length()) == 0: return 1" in src and "return self.straight_line_distance() / length" in src
-    col.check(ok, R_, d.qualname, d.loc(), "tortuosity = straight-line distance / path length (1 for a zero-length path)", "",
-              "tortuosity is not straight_line_distance / length with the zero-length case returning 1", stmt="tort")
-    # radial distance about the soma
-    d = repo.get_def(f"{A}.features.NodeFeatures.get_radial_distance")
-    a = {norm_src(s.targets[0]): norm_src(s.value) for s in d.node.body if isinstance(s, ast.Assign)}
-    ok = a.get("xyz") == "self.tree.xyz() - self.tree.soma().xyz()" and a.get("radial_distance") == "np.linalg.norm(xyz, axis=1)"
-    col.check(ok, R_, d.qualname, d.loc(), "radial distance = norm of (node position - soma position), per node", "", f"{a}", stmt="radial")
-    # branch order = depth in the branch tree (root 0)
-    d = repo.get_def(f"{A}.features.NodeFeatures.get_branch_order")
-    cb = d.nested.get("assign_depth")
-    ok = cb is not None and "cur_order = pre_depth + 1 if pre_depth is not None else 0" in norm_src(cb.node) \
-        and "order[n.id] = cur_order" in norm_src(cb.node) and "return cur_order" in norm_src(cb.node) \
-        and "self._branch_tree.traverse(enter=assign_depth)" in norm_src(d.node)
-    col.check(bool(ok), R_, d.qualname, d.loc(), "branch order = depth in the branch tree, root 0, +1 per level", "", "branch order is not parent's + 1 over the branch tree", stmt="border")
-    # path distance: walk to the root adding each step
-    d = repo.get_def(f"{LM}.path_distance")
-    src = norm_src(d.node)
-    ok = "while (parent := n.parent()) is not None:" in src and "length += n.distance(parent)" in src and "n = parent" in src
-    col.check(ok, R_, d.qualname, d.loc(), "path distance = sum of the distances to the parent, up to the root", "", "path distance loop changed", stmt="pdist")
-    d = repo.get_def(f"{LM}.euc_distance")
-    src = norm_src(d.node)
-    col.check("soma = node.attach.soma()" in src and "return node.distance(soma)" in src, R_, d.qualname, d.loc(), "Euclidean distance to the soma", "", "", stmt="edist")
-    d = repo.get_def(f"{LM}.branch_order")
-    src = norm_src(d.node)
-    ok = "while n is not None:" in src and "if n.is_furcation(): order += 1" in src and "n = n.parent()" in src
-    col.check(ok, R_, d.qualname, d.loc(), "L-Measure branch order = furcations on the way to the root", "", "", stmt="lborder")
-    # bifurcation vectors
-    for meth, want in (("_bif_vector_local", ("children[0].xyz() - bif.xyz()", "children[1].xyz() - bif.xyz()")),
-                       ("_bif_vector_remote", ("children[0].branch()[-1].xyz() - bif.xyz()", "children[1].branch()[-1].xyz() - bif.xyz()"))):
-        d = repo.get_def(f"{LM}.{meth}")
-        a = {norm_src(s.targets[0]): norm_src(s.value) for s in d.node.body if isinstance(s, ast.Assign)}
-        ok = (a.get("v1"), a.get("v2")) == want and a.get("children") == "bif.children()"
-        col.check(ok, R_, d.qualname, d.loc(), f"{meth}: vectors from the bifurcation to its two daughters"
-                  + (" (ends of their branches)" if "remote" in meth else " (first compartments)"), "", f"{a}", stmt=meth)
+        rn = _ret(d)
+        if len(rn) == 1:
+            col.text(R_, qual, d.loc(rn[0]), what, rn[0].value, accepted, stmt="wire")
+        else:
+            col.unresolved(R_, qual, d.loc(), what, f"{len(rn)} return statements", stmt="wire")
+    def grp(qual, items, fixed=()):
+        d = repo.get_def(qual)
+        col.text_group(R_, qual, d, items, fixed=fixed)
+        return d
+    grp(f"{LM}.contraction", [
+        ("contraction: Euclidean distance between the two ends of the branch ...", ["euclidean = branch[0].distance(branch[-1])", "euclidean = branch[-1].distance(branch[0])"], "contr-e"),
+        ("... divided by the path length", ["return euclidean / branch.length()"], "contr")], fixed=("branch",))
+    grp("swcgeom.core.path.Path.tortuosity", [
+        ("a zero-LENGTH path has tortuosity 1 (the guard is on the path length, the divisor)", ["if (length := self.length()) == 0: return 1"], "tort-guard"),
+        ("tortuosity = straight-line distance / path length", ["return self.straight_line_distance() / length"], "tort")])
+    grp(f"{A}.features.NodeFeatures.get_radial_distance", [
+        ("radial distance: node position minus soma position ...", ["xyz = self.tree.xyz() - self.tree.soma().xyz()"], "radial-v"),
+        ("... its norm, per node", ["radial_distance = np.linalg.norm(xyz, axis=1)", "return np.linalg.norm(xyz, axis=1)"], "radial")])
+    grp(f"{A}.features.NodeFeatures.get_branch_order", [
+        ("branch order = depth in the branch tree: root 0, +1 per level", ["cur_order = pre_depth + 1 if pre_depth is not None else 0", "cur_order = 0 if pre_depth is None else pre_depth + 1"], "border"),
+        ("recorded under the node's id", ["order[n.id] = cur_order"], "border-rec"),
+        ("handed to the children", ["return cur_order"], "border-ret"),
+        ("over the branch tree", ["self._branch_tree.traverse(enter=assign_depth)"], "border-walk")])
+    grp(f"{LM}.path_distance", [
+        ("path distance: walk to the root ...", ["while (parent := n.parent()) is not None:\n    length += n.distance(parent)\n    n = parent"], "pdist"),
+        ("... starting from zero at the node", ["length = 0"], "pdist0")])
+    grp(f"{LM}.euc_distance", [
+        ("Euclidean distance to the soma of the node's own tree", ["soma = node.attach.soma()"], "edist-soma"),
+        ("...", ["return node.distance(soma)"], "edist")], fixed=("node",))
+    grp(f"{LM}.branch_order", [
+        ("L-Measure branch order: furcations on the way to the root", ["while n is not None:\n    if n.is_furcation():\n        order += 1\n    n = n.parent()"], "lborder")])
+    grp(f"{LM}._bif_vector_local", [
+        ("the two daughters of the bifurcation", ["children = bif.children()"], "kids"),
+        ("vector to the first daughter (first compartment)", ["v1 = children[0].xyz() - bif.xyz()"], "v1"),
+        ("vector to the second daughter (first compartment)", ["v2 = children[1].xyz() - bif.xyz()"], "v2")], fixed=("bif",))
+    grp(f"{LM}._bif_vector_remote", [
+        ("the two daughters of the bifurcation", ["children = bif.children()"], "kids"),
+        ("vector to the end of the first daughter's branch", ["v1 = children[0].branch()[-1].xyz() - bif.xyz()"], "v1"),
+        ("vector to the end of the second daughter's branch", ["v2 = children[1].branch()[-1].xyz() - bif.xyz()"], "v2")], fixed=("bif",))
     for meth, vec in (("bif_ampl_local", "_bif_vector_local"), ("bif_ampl_remote", "_bif_vector_remote")):
-        d = repo.get_def(f"{LM}.{meth}")
-        src = norm_src(d.node)
-        col.check(f"v1, v2 = self.{vec}(bif)" in src and "return np.degrees(angle(v1, v2))" in src, R_, d.qualname, d.loc(),
-                  f"{meth}: angle between the two daughter vectors, in degrees", "", "", stmt=meth)
+        grp(f"{LM}.{meth}", [
+            (f"{meth}: the two daughter vectors", [f"v1, v2 = self.{vec}(bif)"], "vecs"),
+            ("angle between them, in degrees", ["return np.degrees(angle(v1, v2))"], "angle")], fixed=("bif", "angle"))
     for meth, vec in (("bif_tilt_local", "_bif_vector_local"), ("bif_tilt_remote", "_bif_vector_remote")):
-        d = repo.get_def(f"{LM}.{meth}")
-        src = norm_src(d.node)
-        ok = "v = parent.xyz() - bif.xyz()" in src and f"v1, v2 = self.{vec}(bif)" in src and "angle1 = np.degrees(angle(v, v1))" in src \
-            and "angle2 = np.degrees(angle(v, v2))" in src and "return min(angle1, angle2)" in src
-        col.check(ok, R_, d.qualname, d.loc(), f"{meth}: smaller angle between the parent compartment and the daughters", "", "", stmt=meth)
-    # angle(): arccos of the clipped normalised dot product
-    d = repo.get_def(f"{A}.lmeasure.angle")
-    a = {norm_src(s.targets[0]): norm_src(s.value) for s in d.node.body if isinstance(s, ast.Assign)}
-    allv = [norm_src(s.value) for s in d.node.body if isinstance(s, ast.Assign)]
-    ok = "np.dot(a, b) / (np.linalg.norm(a) * np.linalg.norm(b))" in allv and "np.arccos(costheta)" in allv
-    col.check(ok, R_, d.qualname, d.loc(), "angle = arccos(a.b / (|a| |b|))", "", f"{a}", stmt="angle")
+        grp(f"{LM}.{meth}", [
+            (f"{meth}: the parent compartment's vector", ["v = parent.xyz() - bif.xyz()"], "pv"),
+            ("the two daughter vectors", [f"v1, v2 = self.{vec}(bif)"], "vecs"),
+            ("angle to the first daughter", ["angle1 = np.degrees(angle(v, v1))"], "a1"),
+            ("angle to the second daughter", ["angle2 = np.degrees(angle(v, v2))"], "a2"),
+            ("the smaller of the two", ["return min(angle1, angle2)"], "min")], fixed=("bif", "angle"))
+    grp(f"{A}.lmeasure.angle", [
+        ("angle = arccos of the normalised dot product", ["costheta = np.dot(a, b) / (np.linalg.norm(a) * np.linalg.norm(b))"], "cos"),
+        ("...", ["theta = np.arccos(costheta)", "return np.arccos(costheta)"], "acos")])
 
 
 # --------------------------------------------------------------------------- population rows
